@@ -92,6 +92,7 @@ def store_obligations(chk, name, tx, stores, fd, role, prove):
 
 def run(chk):
     idx = chk.idx
+    nnm_rules.rule_ctor_signature(chk, "C13.R6")
     nnm_rules.rule_stateless(chk, "C13.R9")  # first: its refutations stand even if a later rule cannot read the code
     reg = nnm.registry(idx)
     chk.explain(
@@ -240,6 +241,9 @@ def run(chk):
     _n0 = len(chk.obs)
     chk.borrow(_c02.r3_supermajority, {"C02.R2": "C13.R6"})
     chk.obs = chk.obs[:_n0] + [o for o in chk.obs[_n0:] if o.rule != "C13.R6" or o.key == "three-sites-agree"]
+    # R5 also: the ranges are ranges of real numbers; an array that inherits an integer sample's dtype truncates them (C12.R6)
+    from . import c12 as _c12
+    chk.borrow(_c12.r6_dtype, {"C12.R6": "C13.R5"})
     # R8: the ranges above speak about eta_j and lambda_j *as they enter the factor* 1 + lambda_j (x_j - mu_j) resp. the ALPHA factor:
     # the factor identity (C12.R1) ties the test statistic to them
     from .. import nnm_rules as _NR
